@@ -20,8 +20,7 @@ def build(chk):
     return impl, model
 
 
-def build_gen(chk, protos):
-    """harness variant that also contains gcc-compiled callers/callees for the expressible prototypes"""
+def write_gen_file(protos):
     import gen_c05_cfile as C
     import hashlib
     text, ok = C.gen_cfile(protos)
@@ -29,15 +28,30 @@ def build_gen(chk, protos):
     os.makedirs(d, exist_ok=True)
     path = os.path.join(d, 'gen_%s.c' % hashlib.sha1(text.encode()).hexdigest()[:12])
     if not os.path.exists(path):
-        with open(path + '.tmp', 'w') as f:
+        with open(path + '.tmp%d' % os.getpid(), 'w') as f:
             f.write(text)
-        os.rename(path + '.tmp', path)
+        os.rename(path + '.tmp%d' % os.getpid(), path)
     for old in sorted(os.listdir(d), key=lambda x: os.path.getmtime(os.path.join(d, x)))[:-24]:
         try:
             os.remove(os.path.join(d, old))
         except OSError:
             pass
+    return path, ok
+
+
+def build_gen(chk, protos):
+    """harness variant that also contains gcc-compiled callers/callees for the expressible prototypes"""
+    path, ok = write_gen_file(protos)
     impl = vlib.build_harness('c05_probe_g', ['c05_probe.c', 'c05_asm.S', path], extra_flags=['-fno-strict-aliasing'])
+    return impl, ok
+
+
+def build_c2m(chk, protos):
+    """harness variant linked with the c2mir unit of the checked tree (mode c2m: C source compiled by c2mir inside the
+    harness) plus the gcc-compiled callers/callees of the same prototypes"""
+    path, ok = write_gen_file(protos)
+    impl = vlib.build_harness('c05_probe_c2m', ['c05_probe.c', 'c05_asm.S', path], units=('mir', 'mir-gen', 'c2mir'),
+                              extra_flags=['-fno-strict-aliasing', '-DC05_C2M=1'])
     return impl, ok
 
 
@@ -98,6 +112,175 @@ def three_way(chk, impl_g, model, protos, ok, rng, engines):
         raise vlib.BuildError('INTERNAL: the SysV model (coq/C05/SysV.v) disagrees with the platform compiler (gcc caller -> '
                               'assembly probe); this is a defect of the verification model, not of /repo: ' + ' | '.join(model_bad[:4]))
     return found
+
+
+def c2m_protos(chk, quick):
+    import gen_c05_cfile as C
+    rng = chk.rng('c2m')
+    protos = G.aggregate_core()
+    corpus = os.path.join(vlib.VERIF, 'corpus', 'c05_c2m.jsonl')
+    if os.path.exists(corpus):
+        for l in open(corpus):
+            l = l.strip()
+            if l and not l.startswith('#'):
+                protos.append(json.loads(l))
+    ncore = len(protos)
+    want = ncore + (70 if quick else 1200)
+    tries = 0
+    while len(protos) < want and tries < 20 * want:
+        tries += 1
+        p = G.gen_aggregate_proto(rng) if rng.random() < 0.75 else G.gen_proto(rng, min_fixed=1, cf=True)
+        if C.c2m_expressible(p) is not None:
+            protos.append(p)
+    protos = [p for p in protos if C.c2m_expressible(p) is not None]
+    return protos, ncore
+
+
+def c2m_seen_mismatches(p, vals, rets, r, who_sees, who_passed, check_args=True):
+    """argument values as the callee stored them into c05_seen / result as the caller stored it at c05_seen+2048"""
+    import gen_c05_cfile as C
+    bad = []
+    seen = r['seen']
+    offs, _ = G.layout(p)
+    if check_args:
+        for i, (t, v, o) in enumerate(zip(p['args'], vals, offs)):
+            if t.startswith('rblk'):
+                continue
+            n = {'i8': 1, 'u8': 1, 'i16': 2, 'u16': 2, 'i32': 4, 'u32': 4}.get(t, len(v))
+            if seen[o:o + n] != v[:n]:
+                bad.append('%s sees argument %d (%s%s) = %s, %s passed %s' % (who_sees, i, t, ' variadic' if i >= p['nfixed'] else '',
+                                                                          seen[o:o + n].hex(), who_passed, v[:n].hex()))
+    for off, want in C.c_result_bytes(p, rets):
+        got = seen[2048 + off:2048 + off + len(want)]
+        if got != want:
+            bad.append('%s receives result bytes %s at +%d, %s returned %s' % (who_passed, got.hex(), off, who_sees, want.hex()))
+    return bad
+
+
+def c2m_run(impl, model, items, engines_of):
+    """items: [(k, proto, vals, rets)] with k = index into the harness' generated table.
+    Three directions per prototype and engine:
+      a: c2m-compiled caller -> assembly probe   (image must equal the SysV model's, result bytes as preset)
+      b: c2m-compiled caller -> gcc-compiled callee (callee must see every value, caller the result)
+      r: gcc-compiled caller -> c2m-compiled callee (same, other direction)
+    plus g: gcc-compiled caller -> assembly probe (validates the model; a mismatch is an INTERNAL error).
+    Returns [(direction, k, proto, vals, rets, engine, mismatches, model row)]"""
+    import gen_c05_cfile as C
+    lines = []
+    for k, p, vals, rets in items:
+        vb, io = G.vals_bytes(p, vals), G.ret_bytes_n(p, rets)
+        lines.append(case_line('g%d' % k, 'gcc', '-', 'gcaller%d' % k, None, vb, io))
+        cs, es = C.c2m_caller_source(p), C.c2m_callee_source(p)
+        for e in engines_of(k, 'a'):
+            lines.append(case_line('a%d.%s' % (k, e), 'c2m', e, 'probe', cs, vb, io))
+        for e in engines_of(k, 'b'):
+            lines.append(case_line('b%d.%s' % (k, e), 'c2m', e, 'callee%d' % k, cs, vb, io))
+        for e in engines_of(k, 'r'):
+            lines.append(case_line('r%d.%s' % (k, e), 'c2m', e, 'gcaller%d' % k, es, vb, io))
+    rows, err = G.run_harness(vlib, impl, lines)
+    mlines = [G.model_line('g%d' % k, p, vals, rets, VALS_ADDR) for k, p, vals, rets in items]
+    rc2, mout, merr = vlib.run_lines(model, mlines, timeout=600)
+    if rc2 != 0 or len(mout) != len(mlines):
+        raise vlib.BuildError('model driver failed rc=%d: %s' % (rc2, merr[-800:]))
+    out, model_bad = [], []
+    for (k, p, vals, rets), ml in zip(items, mout):
+        m = G.parse_model(ml)
+        pm = dict(m, res=[], rv=[])
+        if p['args'] and p['args'][0].startswith('rblk'):
+            pm['img'] = m['img'][1:]  # the hidden return-block pointer is the C caller's own temporary
+        pa = dict(p, res=[])
+        b = G.compare_c05(pa, pm, rows.get('g%d' % k, dict(status='missing')), rets)
+        if b:
+            model_bad.append('%s: %s' % (G.proto_sig(p), '; '.join(b[:3])))
+            continue
+        missing = dict(status='missing', detail=err[-200:])
+        for e in engines_of(k, 'a'):
+            r = rows.get('a%d.%s' % (k, e), missing)
+            bad = G.compare_c05(pa, pm, r, rets)
+            if r['status'] == 'ok':
+                bad += c2m_seen_mismatches(p, vals, rets, r, 'the probe', 'the c2m-compiled caller', check_args=False)
+            out.append(('a', k, p, vals, rets, e, bad, m))
+        for e in engines_of(k, 'b'):
+            r = rows.get('b%d.%s' % (k, e), missing)
+            bad = ['%s %s' % (r['status'], r.get('detail', ''))] if r['status'] != 'ok' else \
+                c2m_seen_mismatches(p, vals, rets, r, 'the gcc-compiled callee', 'the c2m-compiled caller')
+            out.append(('b', k, p, vals, rets, e, bad, m))
+        for e in engines_of(k, 'r'):
+            r = rows.get('r%d.%s' % (k, e), missing)
+            bad = ['%s %s' % (r['status'], r.get('detail', ''))] if r['status'] != 'ok' else \
+                c2m_seen_mismatches(p, vals, rets, r, 'the c2m-compiled callee', 'the gcc-compiled caller')
+            out.append(('r', k, p, vals, rets, e, bad, m))
+    if model_bad:
+        raise vlib.BuildError('INTERNAL: the SysV model (coq/C05/SysV.v) disagrees with the platform compiler (gcc caller -> '
+                              'assembly probe); this is a defect of the verification model, not of /repo: ' + ' | '.join(model_bad[:4]))
+    return out
+
+
+C2M_DIR = {'a': 'c2m-compiled caller -> assembly probe', 'b': 'c2m-compiled caller -> gcc-compiled callee',
+           'r': 'gcc-compiled caller -> c2m-compiled callee'}
+
+
+def c2m_shrink(model, p, vals, rets, dirn, engine):
+    """drop arguments while the (rebuilt) case still fails in the same direction; each candidate needs its own
+    gcc-compiled counterpart, so the number of rebuilds is bounded"""
+    import gen_c05_cfile as C
+    budget = [14]
+
+    def fails(p2, v2):
+        if budget[0] <= 0 or C.c2m_expressible(p2) is None:
+            return False
+        budget[0] -= 1
+        impl, ok = build_c2m(None, [p2])
+        if not ok:
+            return False
+        res = c2m_run(impl, model, [(0, p2, v2, rets)], lambda k, d: [engine] if d == dirn else [])
+        return any(bad for _, _, _, _, _, _, bad, _ in res)
+    changed = True
+    while changed and budget[0] > 0:
+        changed = False
+        for i in range(len(p['args']) - 1, -1, -1):
+            if p['vararg'] and i < p['nfixed'] and p['nfixed'] <= 1:
+                continue
+            p2 = dict(p, args=p['args'][:i] + p['args'][i + 1:], nfixed=p['nfixed'] - (1 if i < p['nfixed'] else 0))
+            v2 = vals[:i] + vals[i + 1:]
+            if fails(p2, v2):
+                p, vals, changed = p2, v2, True
+                break
+    return p, vals
+
+
+def c2m_stage(chk, model, quick):
+    """C sources with aggregate-passing prototypes compiled by c2mir (inside the harness, checked tree's c2mir unit)
+    against the assembly probe and gcc-compiled counterparts"""
+    import gen_c05_cfile as C
+    protos, ncore = c2m_protos(chk, quick)
+    impl, ok = build_c2m(chk, protos)
+    rng = chk.rng('c2m-vals')
+    items = []
+    for k in ok:
+        vals, rets = G.gen_values(rng, protos[k])
+        items.append((k, protos[k], G.fix_values(protos[k], vals, rng), rets))
+    pick = {k: rng.choice(ENGINES_QUICK[1:]) for k in ok}
+
+    def engines_of(k, d):
+        if not quick:
+            return ENGINES_QUICK
+        if k < ncore:
+            return ENGINES_QUICK if d == 'a' else ['interp', pick[k]]
+        return ['interp', pick[k]] if d == 'a' else [pick[k]]
+    res = c2m_run(impl, model, items, engines_of)
+    found = {}
+    for d, k, p, vals, rets, e, bad, m in res:
+        chk.count(('c2m', d, G.proto_sig(p), e), nontrivial=sum(1 for a in p['args'] if a.startswith('blk')) >= 2)
+        chk.dist('c2m_direction', C2M_DIR[d])
+        chk.dist('c2m_aggregates_per_prototype', min(sum(1 for a in p['args'] if a.startswith('blk')), 6))
+        if bad:
+            found.setdefault((d, 'interp' if e == 'interp' else 'gen', G.proto_sig(p)), (d, k, p, vals, rets, e, bad, m))
+    chk.cov['c2m_stage'] = ('%d prototypes with by-value aggregates (C structs of every psABI class; %d aimed at the fit test of '
+                            'aggregate arguments, the rest generated) compiled by c2mir inside the harness x {interp, gen -O0..-O3}: '
+                            'c2m caller -> assembly probe (SysV model image), c2m caller -> gcc callee, gcc caller -> c2m callee'
+                            % (len(items), ncore))
+    return [found[k] for k in sorted(found)]
 
 
 def case_line(cid, mode, engine, target, mir, vals, io):
@@ -406,6 +589,33 @@ def run(chk):
             ro['c_prototypes'] = [x['proto'] for x in c2['calls']]
             chk.finding(signature(c2), ro, 'gcc-compiled callee %s called from MIR via %s: %s' % (
                 signature(c2).split(':', 2)[2], c2['engine'], '; '.join(bad2[:3])))
+    # c2m -> native: c2mir's own classification of by-value aggregates (c2mir/x86_64/cx86_64-ABI-code.c)
+    import gen_c05_cfile as CF
+    nshown = 0
+    for d, k, p, vals, rets, e, bad, m in c2m_stage(chk, model, quick):
+        sig = 'c05:c2m:%s:%s:%s' % (d, 'interp' if e == 'interp' else 'gen', G.proto_sig(p))
+        if sig in seen:
+            continue
+        nbad += 1
+        nshown += 1
+        if nshown > 4:
+            continue
+        p2, v2 = c2m_shrink(model, p, vals, rets, d, e)
+        if p2 is not p:
+            impl1, ok1 = build_c2m(chk, [p2])
+            res1 = c2m_run(impl1, model, [(0, p2, v2, rets)], lambda kk, dd: [e] if dd == d else [])
+            b1 = [x for x in res1 if x[6]]
+            if b1:
+                p, vals, bad, m = p2, v2, b1[0][6], b1[0][7]
+        sig = 'c05:c2m:%s:%s:%s' % (d, 'interp' if e == 'interp' else 'gen', G.proto_sig(p))
+        if sig in seen:
+            continue
+        seen.add(sig)
+        chk.finding(sig, dict(kind='c2m', direction=d, proto=p, vals=[v.hex() for v in vals], engine=e,
+                              rets={kk: (vv.hex() if isinstance(vv, (bytes, bytearray)) else vv) for kk, vv in rets.items()},
+                              mismatches=bad, model_image=['%s=%s/%d' % x for x in m['img']],
+                              c_source=CF.c2m_callee_source(p) if d == 'r' else CF.c2m_caller_source(p)),
+                    '%s for the C prototype of %s via %s: %s' % (C2M_DIR[d], G.proto_sig(p), e, '; '.join(bad[:3])))
     if not r['ok'] and not nbad:
         chk.proof_broken(r, searched='%d calls agreed with the SysV model image' % len(cases))
 
@@ -461,6 +671,14 @@ def replay(chk, path):
         got = int.from_bytes(r['outs'][0:8], 'little') if r['status'] == 'ok' else None
         print('nested call chain, inner call with %d arguments via %s: MIR caller receives %s (1006 expected)' % (j['n'], j['engine'], got if got is not None else r['status']))
         return 0 if got == 1006 else 1
+    if j.get('kind') == 'c2m':
+        p, d, e = j['proto'], j['direction'], j['engine']
+        rets = {k: (bytes.fromhex(v) if isinstance(v, str) else v) for k, v in j['rets'].items()}
+        implc, ok = build_c2m(chk, [p])
+        res = c2m_run(implc, model, [(0, p, [bytes.fromhex(v) for v in j['vals']], rets)], lambda kk, dd: [e] if dd == d else [])
+        print('%s, C prototype of %s, engine %s' % (C2M_DIR[d], G.proto_sig(p), e))
+        print('mismatches:', [x[6] for x in res if x[6]])
+        return 1 if any(x[6] for x in res) else 0
     calls = j.get('calls') or [dict(proto=j['proto'], vals=j['vals'])]
     c = dict(calls=[dict(proto=x['proto'], vals=[bytes.fromhex(v) for v in x['vals']]) for x in calls],
              engine=j['engine'], target=j.get('target', 'probe'),
